@@ -658,7 +658,12 @@ func (w *c02World) concretise(rng *rand.Rand, c *c02Case) {
 		ids = append(ids, filter.ID(id))
 	}
 	svcs := make([]filter.BlockedServiceID, 0, len(k.Svcs))
-	for _, id := range k.Svcs {
+	for i, id := range k.Svcs {
+		if (c.ID+i)%3 == 0 {
+			// an ID the current service index does not know (a removed or renamed service) in front of a
+			// known one: it blocks nothing and must not change what the others block
+			svcs = append(svcs, filter.BlockedServiceID(fmt.Sprintf("c02_gone_service_%d", i)))
+		}
 		svcs = append(svcs, filter.BlockedServiceID(id))
 	}
 	c.Conf = &filter.ConfigClient{
